@@ -478,23 +478,41 @@ fn reflect_sweep() {
     }
     // (carrier opcode, words before the value, operands before the value's parameters)
     fn check(name: &str, value: u32, op: Operand, opcode: u32, prefix: &[u32], skip: usize, as_multiset: bool) -> bool {
-        let refl: Vec<String> = op.additional_operands().iter().map(|l| variant_of_kind(&format!("{:?}", l.kind))).collect();
-        let mut words = vec![0u32];
-        words.extend_from_slice(prefix);
-        words.push(value);
-        words.extend(std::iter::repeat(0u32).take(refl.len()));
-        words[0] = ((words.len() as u32) << 16) | opcode;
-        let parsed = parsed_variants(&words, skip);
-        let ok = match &parsed {
-            Ok(p) => {
-                if as_multiset { let mut a = p.clone(); a.sort(); let mut b = refl.clone(); b.sort(); a == b } else { *p == refl }
-            }
-            Err(_) => false,
+        let logical = op.additional_operands();
+        let refl: Vec<String> = logical.iter().map(|l| variant_of_kind(&format!("{:?}", l.kind))).collect();
+        let quants: Vec<String> = logical.iter().map(|l| format!("{:?}", l.quantifier)).collect();
+        // every repetition count an optional / variadic parameter allows (only the last parameter may be one)
+        let counts: Vec<usize> = match quants.last().map(|q| q.as_str()) {
+            Some("ZeroOrOne") => vec![0, 1],
+            Some("ZeroOrMore") => vec![0, 1, 2, 3],
+            _ => vec![1],
         };
-        if !ok {
-            println!("MISMATCH {} value={} reflection={:?} parser={:?}", name, value, refl, parsed);
+        if quants.iter().rev().skip(1).any(|q| q != "One") {
+            println!("MISMATCH {} value={} reflection reports a non-final optional/variadic parameter: {:?}", name, value, quants);
+            return false;
         }
-        ok
+        let mut all_ok = true;
+        for c in counts {
+            let mut expect: Vec<String> = refl.clone();
+            if let Some(last) = expect.pop() { for _ in 0..c { expect.push(last.clone()); } }
+            let mut words = vec![0u32];
+            words.extend_from_slice(prefix);
+            words.push(value);
+            words.extend(std::iter::repeat(0u32).take(expect.len()));
+            words[0] = ((words.len() as u32) << 16) | opcode;
+            let parsed = parsed_variants(&words, skip);
+            let ok = match &parsed {
+                Ok(p) => {
+                    if as_multiset { let mut a = p.clone(); a.sort(); let mut b = expect.clone(); b.sort(); a == b } else { *p == expect }
+                }
+                Err(_) => false,
+            };
+            if !ok {
+                println!("MISMATCH {} value={} reflection={:?} quantifiers={:?} repetitions={} parser={:?}", name, value, refl, quants, c, parsed);
+                all_ok = false;
+            }
+        }
+        all_ok
     }
     let mut n = 0;
     for v in 0u32..=70000 {
